@@ -18,6 +18,8 @@ pub enum SetOp {
     Universe(usize),
     /// ask all membership queries of set i (twice)
     Query(usize),
+    /// replace set i by `BDDSet::from_element(x, bits, env)` (a new set in the shared environment)
+    Singleton(usize, usize),
 }
 
 impl SetOp {
@@ -30,6 +32,7 @@ impl SetOp {
             SetOp::Empty(s) => json!(["empty", s]),
             SetOp::Universe(s) => json!(["universe", s]),
             SetOp::Query(s) => json!(["query", s]),
+            SetOp::Singleton(s, x) => json!(["singleton", s, x]),
         }
     }
     fn from_json(v: &Value) -> Option<SetOp> {
@@ -43,6 +46,7 @@ impl SetOp {
             "empty" => SetOp::Empty(us(1)?),
             "universe" => SetOp::Universe(us(1)?),
             "query" => SetOp::Query(us(1)?),
+            "singleton" => SetOp::Singleton(us(1)?, us(2)?),
             _ => return None,
         })
     }
@@ -73,6 +77,7 @@ impl SetOp {
             SetOp::Empty(_) => "empty",
             SetOp::Universe(_) => "universe",
             SetOp::Query(_) => "query",
+            SetOp::Singleton(..) => "from_element",
         }
     }
 }
@@ -101,6 +106,7 @@ fn apply_ref(sets: &mut [BTreeSet<usize>], bits: usize, op: &SetOp) {
         SetOp::Empty(s) => sets[*s].clear(),
         SetOp::Universe(s) => sets[*s] = (0..(1usize << bits)).collect(),
         SetOp::Query(_) => {}
+        SetOp::Singleton(s, x) => sets[*s] = [*x].into_iter().collect(),
     }
 }
 
@@ -111,9 +117,9 @@ pub fn check_history(bits: usize, nsets: usize, ops: &[SetOp]) -> Check {
     let v = |m: String| Violation::new(m, cj.clone());
     guarded(&cj.clone(), || {
         let env = Rc::new(BDDEnv::<usize>::new());
-        let imp: Vec<BDDSet> = (0..nsets).map(|_| BDDSet::with_env(bits, &env)).collect();
+        let mut imp: Vec<BDDSet> = (0..nsets).map(|_| BDDSet::with_env(bits, &env)).collect();
         let mut reference: Vec<BTreeSet<usize>> = vec![BTreeSet::new(); nsets];
-        let ask = |reference: &Vec<BTreeSet<usize>>, which: &[usize], after: &str| -> Check {
+        let ask = |imp: &Vec<BDDSet>, reference: &Vec<BTreeSet<usize>>, which: &[usize], after: &str| -> Check {
             for round in 0..2 {
                 for &s in which {
                     for x in 0..(1usize << bits) {
@@ -131,7 +137,7 @@ pub fn check_history(bits: usize, nsets: usize, ops: &[SetOp]) -> Check {
             Ok(())
         };
         let all: Vec<usize> = (0..nsets).collect();
-        ask(&reference, &all, "creation")?;
+        ask(&imp, &reference, &all, "creation")?;
         for (i, op) in ops.iter().enumerate() {
             let what = format!("step {} {}", i, op.to_json());
             match op {
@@ -154,12 +160,15 @@ pub fn check_history(bits: usize, nsets: usize, ops: &[SetOp]) -> Check {
                     imp[*s].universe();
                 }
                 SetOp::Query(s) => {
-                    ask(&reference, &[*s], &what)?;
+                    ask(&imp, &reference, &[*s], &what)?;
                     continue;
+                }
+                SetOp::Singleton(s, x) => {
+                    imp[*s] = BDDSet::from_element(*x, bits, &env);
                 }
             }
             apply_ref(&mut reference, bits, op);
-            ask(&reference, &all, &what)?;
+            ask(&imp, &reference, &all, &what)?;
         }
         Ok(())
     })
@@ -233,7 +242,7 @@ fn reachable_paths(bits: usize, nsets: usize, max_depth: usize) -> Vec<Vec<SetOp
 pub fn run(ctx: &mut Ctx) -> Result<(), Violation> {
     ctx.rule = "model-based: two (random stage: three) BDDSets sharing one environment against BTreeSet<usize> references. Exhaustive: for bits b in {1,2} breadth-first over EVERY reachable pair of reference states (4x4 resp. 16x16), \
                 the implementation state rebuilt by replaying a shortest operation path, then every next operation (insert(x) on either set, union/intersect/complement with operands (A,B),(B,A),(A,A),(B,B), empty, universe); \
-                after every operation all membership queries of all sets are asked twice and compared. Random: histories of <= 40 operations for b = 3 and three sets. \
+                after every operation all membership queries of all sets are asked twice and compared. Random: histories of <= 40 operations for b <= 3 and three sets, including replacing a set by from_element(x). \
                 Non-trivial = history of >= 2 operations containing a binary set operation; distinct by operation list."
         .to_string();
     ctx.assume("elements are b-bit integers (0..2^b); all sets of a history share one environment");
@@ -296,13 +305,11 @@ pub fn run(ctx: &mut Ctx) -> Result<(), Violation> {
                 3 | 4 => SetOp::Union(s, o),
                 5 | 6 => SetOp::Intersect(s, o),
                 7 => SetOp::Complement(s, o),
-                8 => {
-                    if t.flag() {
-                        SetOp::Empty(s)
-                    } else {
-                        SetOp::Universe(s)
-                    }
-                }
+                8 => match t.choose(3) {
+                    0 => SetOp::Empty(s),
+                    1 => SetOp::Universe(s),
+                    _ => SetOp::Singleton(s, t.choose(1 << bits)),
+                },
                 _ => SetOp::Query(s),
             });
         }
@@ -323,6 +330,7 @@ pub fn replay(case: &Value) -> Check {
                 SetOp::Insert(s, x) => *s < nsets && *x < (1 << bits),
                 SetOp::Union(a, b) | SetOp::Intersect(a, b) | SetOp::Complement(a, b) => *a < nsets && *b < nsets,
                 SetOp::Empty(s) | SetOp::Universe(s) | SetOp::Query(s) => *s < nsets,
+                SetOp::Singleton(s, x) => *s < nsets && *x < (1 << bits),
             });
             if ok {
                 check_history(bits, nsets, &o)
